@@ -241,6 +241,11 @@ def cat : Cat := Generated.cat
 
 def findSpec (key : Int) : Option MethodSpec := cat.methods.find? (·.key == key)
 
+def showTy : WireTy → String
+  | .bit => "bit" | .octet => "octet" | .short => "short" | .long => "long" | .longlong => "longlong"
+  | .shortstr => "shortstr" | .longstr => "longstr" | .table => "table" | .timestamp => "timestamp"
+  | .unknown => "unknown"
+
 def wireTyOf (s : String) : WireTy :=
   match s with
   | "bit" => .bit | "octet" => .octet | "short" => .short | "long" => .long
@@ -465,6 +470,27 @@ def step (st : Api.State) (line : String) : Api.State × String :=
     | "api.constructprops" =>
       let vals ← pValsToEnd c #[]
       pure (st, rVals (Api.constructProps cat Generated.propsRules vals))
+    | "map.iter" =>
+      -- `list(obj)`, `len(obj)`: key 0 = Basic.Properties
+      let key ← pInt c; let vals ← pValsToEnd c #[]
+      let names? := if key == 0 then some (cat.props.map (·.name)) else (findSpec key).map (·.slots)
+      match names? with
+      | some names =>
+        pure (st, "ok " ++ toString (Base.len names) ++
+          String.join ((Base.iter names vals).map (fun p => " " ++ p.1 ++ " " ++ showVal p.2)))
+      | none => throw "unknown method key"
+    | "map.item" =>
+      -- `name in obj`, `obj[name]`, `cls.amqp_type(name)`
+      let key ← pInt c; let name ← atom c; let vals ← pValsToEnd c #[]
+      let name := String.ofList name
+      let names? := if key == 0 then some (cat.props.map (·.name), cat.props.map (fun p => (p.name, p.ty)))
+        else (findSpec key).map (fun sp => (sp.slots, sp.slots.zip sp.types))
+      match names? with
+      | some (names, tys) =>
+        pure (st, "ok " ++ (if Base.contains names name then "1" else "0") ++ " " ++
+          (match Base.getItem names vals name with | some v => showVal v | none => "-") ++ " " ++
+          (match Base.amqpType tys name with | some t => showTy t | none => "-"))
+      | none => throw "unknown method key"
     | "ping" => pure (st, "pong")
     | _ => throw "unknown op"
   match (run.run 0) with
